@@ -1,6 +1,7 @@
 (** Types shared by the generated configuration tables (Gen/GenConfig.v) and the
     configuration model (Model/Config.v). *)
 From Coq Require Import ZArith List Bool String Ascii.
+From IV Require Import XQ.
 Import ListNotations.
 
 Inductive debiaser :=
@@ -27,4 +28,11 @@ Record field := mkField {
   f_default : option string;        (* source text of the default, None = required *)
   f_validators : list validator;
   f_converter : option string
+}.
+
+(** ISIMIP per-variable settings (ibicus/debias/_isimip_options.py), general settings filled in *)
+Record isimip_var := mkIsimipVar {
+  iv_lower_bound : XQ.t; iv_lower_threshold : XQ.t; iv_upper_bound : XQ.t; iv_upper_threshold : XQ.t;
+  iv_detrending : bool; iv_nonparametric_qm : bool; iv_bias_correct_frequencies : bool;
+  iv_scale_by_annual_cycle : bool; iv_trend_preservation : string
 }.
